@@ -143,11 +143,14 @@ def tlc(module, cfg_text, env=None, workers=None, timeout=1800, extra=(), simula
         for line in res.out.splitlines():
             line = line.strip()
             if line.startswith('"') and line.endswith('"'):
-                line = line[1:-1]
+                try:
+                    line = json.loads(line)        # TLC prints strings as quoted literals with escapes
+                except ValueError:
+                    line = line[1:-1]
             if line.startswith('VERDICT|'):
                 res.verdicts.append(line.split('|')[1:])
             elif line.startswith('OUT|'):
-                res.prints.append(line.split('|')[1:])
+                res.prints.append(line[4:])
         for mm in _re_cov.finditer(res.out):
             res.coverage[mm.group(1)] = (int(mm.group(3)), int(mm.group(4)))
         return res
